@@ -72,6 +72,8 @@ def rules(chk: Check) -> None:
         return None
 
     for (qual, p) in TABLE["PARAM"]:
+        if qual.count(".") >= 2:
+            continue      # nested helper functions are implementation details: their seeds are optional (inlining one is not an API change)
         if any(qual in m_.funcs for m_ in S.modules.values()):
             f_ = [m_.funcs[qual] for m_ in S.modules.values() if qual in m_.funcs][0]
             if p not in f_.params():
